@@ -17,7 +17,8 @@ def prog_chain_hang(rng, behaviour):
         ex["on_cancel"] = "success"
     elif behaviour == "ignore":
         ex["on_cancel"] = "ignore"
-        steps[1].fields["closure_wait_timeout"] = 40
+        # 0 is a valid value: close by force at once
+        steps[1].fields["closure_wait_timeout"] = rng.choice([40, 0, 0])
     elif behaviour == "nohandler":
         steps[1].schema = "nocancel"
         scripts["b"]["schema"] = "nocancel"
@@ -55,6 +56,29 @@ def prog_foreach_hang(rng, par=2):
     return Program(steps, outs, gen.BASE_INPUT), scripts, "foreach_hang"
 
 
+def prog_late_result(rng):
+    """A never-ending step that answers the cancel signal with an output which other steps (a loop, a plugin step, a wait_for
+    consumer) are waiting for: their input arrives only because the run is cancelled, while they are being closed."""
+    on_cancel = rng.choice(["success", "success", "error"])
+    ref_h = Ref("h", "outputs", "success", "tag") if on_cancel == "success" else Ref("h", "outputs", "error", "reason")
+    steps = [gen.plugin_step("h", Expr(In("tag")))]
+    kinds = rng.sample(["loop", "plugin", "wait_for"], rng.choice([1, 2, 3]))
+    for k in kinds:
+        if k == "loop":
+            sub = gen.sub_program("sub.yaml", 1)
+            steps.append(Step("loop", "foreach", sub=sub, items=[{"tag": Expr(ref_h)}, {"tag": Expr(In("tag"))}], parallelism=rng.choice([1, 2])))
+        elif k == "plugin":
+            steps.append(gen.plugin_step("p", Expr(ref_h)))
+        else:
+            steps.append(gen.plugin_step("w", Expr(In("tag")), wait_for=Expr(ref_h)))
+    rng.shuffle(steps)
+    last = [s for s in steps if s.name != "h"][0]
+    outs = {"success": {"r": Expr(Ref(last.name, "outputs", "success"))}}
+    scripts = gen.make_scripts(steps, {})
+    scripts["h"]["exec"] = {"outcome": "hang", "on_cancel": on_cancel}
+    return Program(steps, outs, gen.BASE_INPUT), scripts, "late_result/%s/%s" % (on_cancel, "+".join(sorted(kinds)))
+
+
 def prog_finishing(rng, shape):
     steps, outs = gen.SHAPES[shape](rng)
     outcome = {}
@@ -66,7 +90,7 @@ def prog_finishing(rng, shape):
 
 
 NEVER_ENDING = [lambda rng: prog_chain_hang(rng, "obey"), lambda rng: prog_chain_hang(rng, "ignore"), lambda rng: prog_chain_hang(rng, "nohandler"),
-                lambda rng: prog_chain_hang(rng, "success"), prog_parallel_hang, prog_deploy_blocks, prog_foreach_hang]
+                lambda rng: prog_chain_hang(rng, "success"), prog_parallel_hang, prog_deploy_blocks, prog_foreach_hang, prog_late_result]
 FINISHING = ["chain", "diamond", "fan_in", "wait_for", "deploy_expr", "enabled", "foreach", "foreach_after", "random_dag"]
 
 
